@@ -181,8 +181,8 @@ def conflicting_program(r):
     c = 1
     cons = []
     t = r.randint(1, nt)
-    kind = r.choice(['two_starts', 'window', 'cycle', 'optional_forced', 'workload', 'unavailable'] if any(o[0] == 'OAddRequired' for o in prog)
-                    else ['two_starts', 'window', 'cycle', 'optional_forced'])
+    kind = r.choice(['two_starts', 'window', 'cycle', 'optional_forced', 'negated', 'exclusive', 'workload', 'unavailable'] if any(o[0] == 'OAddRequired' for o in prog)
+                    else ['two_starts', 'window', 'cycle', 'optional_forced', 'negated', 'exclusive'])
     Z, N, P = terms.Z, terms.N, terms.P
     if kind == 'two_starts':
         cons += [('CStartAt', N(t), Z(0)), ('CStartAt', N(t), Z(1))]
@@ -197,7 +197,7 @@ def conflicting_program(r):
             cons += [('CStartAt', N(t), Z(0)), ('CStartAt', N(t), Z(2))]
         else:
             cons += [('CPrecedence', N(t), N(u), Z(1), ('Lax',)), ('CPrecedence', N(u), N(t), Z(0), ('Lax',))]
-    else:
+    elif kind in ('workload', 'unavailable'):
         ws = [o for o in prog if o[0] == 'OAddRequired']
         o = r.choice(ws)
         res = ('ResW', o[2][1])
@@ -215,6 +215,19 @@ def conflicting_program(r):
     for e in cons:
         prog.append(('ONewConstraint', N(c), False, e))
         c += 1
+    if kind in ('negated', 'exclusive'):
+        # the conflict goes through a logical combination whose operands are constraints: the report has to name the
+        # combination (the operands are not imposed on their own)
+        prog.append(('ONewConstraint', N(c), False, ('CStartAt', N(t), Z(0))))        # operand (becomes flagged)
+        if kind == 'negated':
+            prog.append(('ONewConstraint', N(c + 1), False, ('CNot', ('OpC', N(c)))))
+            prog.append(('ONewConstraint', N(c + 2), False, ('CStartAt', N(t), Z(0))))
+            c += 3
+        else:
+            prog.append(('ONewConstraint', N(c + 1), False, ('CStartAfter', N(t), Z(0), False)))   # second operand, always true
+            prog.append(('ONewConstraint', N(c + 2), False, ('CXor', ('OpC', N(c)), ('OpC', N(c + 1)))))
+            prog.append(('ONewConstraint', N(c + 3), False, ('CStartAt', N(t), Z(0))))
+            c += 4
     if kind == 'optional_forced':
         prog.append(('ONewConstraint', N(c), True, ('CStartAt', N(t), Z(1))))
         prog.append(('ONewConstraint', N(c + 1), False, ('CForceApplyN', [N(c)], Z(1), (r.choice(['PbExact', 'PbMin']),))))
